@@ -22,13 +22,14 @@ type kindOut struct {
 }
 
 type ctx struct {
-	prop  string
-	tier  string
-	seed  int64
-	rng   *rand.Rand
-	kinds map[string]*kindOut
-	dist  map[string]int // input distribution counters
-	notes []string
+	emuReconf int // counter: every n-th emulator encoding goes through a reconfiguration
+	prop      string
+	tier      string
+	seed      int64
+	rng       *rand.Rand
+	kinds     map[string]*kindOut
+	dist      map[string]int // input distribution counters
+	notes     []string
 }
 
 func (c *ctx) thorough() bool { return c.tier == "thorough" }
